@@ -230,14 +230,16 @@ class _Inliner(ast.NodeTransformer):
     def visit_Assign(self, node):
         # `T = helper(...)` (a name or a tuple of names): the helper's returns become assignments to T
         if isinstance(node.value, ast.Call) and len(node.targets) == 1 and \
-                (isinstance(node.targets[0], ast.Name) or (isinstance(node.targets[0], ast.Tuple) and all(isinstance(e, ast.Name) for e in node.targets[0].elts))):
+                (isinstance(node.targets[0], ast.Name) or (isinstance(node.targets[0], ast.Tuple) and all(isinstance(e, ast.Name) for e in node.targets[0].elts))
+                 or (isinstance(node.targets[0], (ast.Subscript, ast.Attribute)) and _pure_target(node.targets[0]))):
             tgt = self._target(node.value)
             if tgt is not None and _as_expression(tgt[0], list(node.value.args), bool(tgt[1]), self.taken) is None:
                 taken = self.taken
                 body = _instantiate(tgt[0], list(node.value.args), bool(tgt[1]), taken)
                 # a helper that ends in `return a, b, c` of its own locals, assigned to `x, y, z = helper(…)`: the locals
                 # are simply called x, y, z (when those names do not occur in the helper) and the hand-over disappears
-                if body and isinstance(body[-1], ast.Return) and not any(isinstance(n, ast.Return) for s_ in body[:-1] for n in ast.walk(s_)):
+                if body and isinstance(body[-1], ast.Return) and not any(isinstance(n, ast.Return) for s_ in body[:-1] for n in ast.walk(s_)) \
+                        and not isinstance(node.targets[0], (ast.Subscript, ast.Attribute)):
                     rv, tg = body[-1].value, node.targets[0]
                     rnames = [e.id for e in rv.elts] if isinstance(rv, ast.Tuple) and all(isinstance(e, ast.Name) for e in rv.elts) else \
                         ([rv.id] if isinstance(rv, ast.Name) else None)
@@ -338,6 +340,15 @@ def inline_tree(tree, path):
 
 
 PURE_CALLS = {'len', 'min', 'max', 'zip', 'list', 'tuple', 'range', 'enumerate', 'int', 'float', 'abs'}
+
+
+def _pure_target(t):
+    """a slot `X[i]` / `X.a` whose container and index are plain names, attribute chains and constants (evaluating them has no
+    effect and nothing the helper does changes what they name)"""
+    for n in ast.walk(t):
+        if not isinstance(n, (ast.Name, ast.Attribute, ast.Subscript, ast.Constant, ast.Load, ast.Store, ast.Index if hasattr(ast, 'Index') else ast.Load)):
+            return False
+    return True
 
 
 def _pure(e):
@@ -523,6 +534,12 @@ def _norm_block(block, fn, in_loop):
             rest = _norm_block(block[i + 1:], fn, in_loop)
             out.append(ast.If(test=_negate(st.test), body=rest, orelse=[]))
             return out
+        # N12 guard with work: `if C: B ; continue` + REST  ->  `if C: B  else: REST`   (directly in a loop body)
+        if in_loop and isinstance(st, ast.If) and not st.orelse and len(st.body) > 1 and isinstance(st.body[-1], ast.Continue) \
+                and i + 1 < len(block) and not _own_level(st.body[:-1], (ast.Continue, ast.Break)):
+            rest = _norm_block(block[i + 1:], fn, in_loop)
+            out.append(ast.If(test=st.test, body=_norm_block(st.body[:-1], fn, in_loop), orelse=rest))
+            return out
         # N6 / N7 a branch that ends in a jump: `if C: …raise  else: E` -> `if C: …raise` ; E
         #         and `if C: B  else: …raise` -> `if not C: …raise` ; B
         if isinstance(st, ast.If) and st.orelse and st.body:
@@ -594,6 +611,40 @@ def _norm_block(block, fn, in_loop):
                         new_for = ast.For(target=elt, iter=src, body=rest or [ast.Pass()], orelse=[], type_comment=None)
                     block[i:i + 1] = [new_for]
                     continue
+        # N13 index loop that never names the element: `for i in range(len(X)): BODY` -> `for i, _ in enumerate(X): BODY`
+        #   (X a plain name / attribute chain that BODY neither rebinds nor resizes; `_` not read in BODY)
+        if isinstance(st, ast.For) and not st.orelse and isinstance(st.target, ast.Name) and isinstance(st.iter, ast.Call) \
+                and isinstance(st.iter.func, ast.Name) and st.iter.func.id == 'range' and len(st.iter.args) == 1 and not st.iter.keywords:
+            a0 = st.iter.args[0]
+            q = a0.args[0] if isinstance(a0, ast.Call) and isinstance(a0.func, ast.Name) and a0.func.id == 'len' and len(a0.args) == 1 and not a0.keywords else None
+            if q is not None and isinstance(q, (ast.Name, ast.Attribute)) and _pure(q):
+                iv = st.target.id
+                bodym = ast.Module(body=st.body, type_ignores=[])
+                qs = ast.unparse(q)
+                resized = any(isinstance(m, ast.Call) and isinstance(m.func, ast.Attribute) and ast.unparse(m.func.value) == qs
+                              and m.func.attr in ('append', 'insert', 'pop', 'remove', 'clear', 'extend', 'sort', 'reverse', 'resize') for m in ast.walk(bodym)) \
+                    or any(isinstance(m, (ast.Name, ast.Attribute)) and isinstance(m.ctx, (ast.Store, ast.Del)) and ast.unparse(m) == qs for m in ast.walk(bodym)) \
+                    or any(isinstance(m, ast.Delete) for m in ast.walk(bodym))
+                # the root object of the chain (`agent` in `agent.position`) must not be re-bound either
+                root = q
+                while isinstance(root, ast.Attribute):
+                    root = root.value
+                rebound = isinstance(root, ast.Name) and _stores(bodym, root.id) > 0
+                if not resized and not rebound and _stores(bodym, iv) == 0 and _loads(bodym, '_') == 0 and _stores(bodym, '_') == 0 \
+                        and _stores(fn, iv) == 1 and _loads(fn, iv) == _loads(bodym, iv):
+                    block[i:i + 1] = [ast.For(target=ast.Tuple(elts=[ast.Name(id=iv, ctx=ast.Store()), ast.Name(id='_', ctx=ast.Store())], ctx=ast.Store()),
+                                              iter=ast.Call(func=ast.Name(id='enumerate', ctx=ast.Load()), args=[q], keywords=[]),
+                                              body=st.body, orelse=[], type_comment=None)]
+                    continue
+        # N14 conditional expression as a statement: `T = A if C else B` -> `if C: T = A  else: T = B`
+        #   (T a name, or a slot whose container and index are plain names / attribute chains / constants)
+        if isinstance(st, ast.Assign) and len(st.targets) == 1 and isinstance(st.value, ast.IfExp) \
+                and (isinstance(st.targets[0], ast.Name) or (isinstance(st.targets[0], (ast.Subscript, ast.Attribute)) and _pure_target(st.targets[0]))):
+            v = st.value
+            block[i:i + 1] = [ast.If(test=v.test,
+                                     body=[ast.Assign(targets=[copy.deepcopy(st.targets[0])], value=v.body, type_comment=None)],
+                                     orelse=[ast.Assign(targets=[copy.deepcopy(st.targets[0])], value=v.orelse, type_comment=None)])]
+            continue
         # N2 explicit counter: `k = 0` ; `for a in X: BODY; k += 1`  ->  `for k, a in enumerate(X): BODY`
         if isinstance(st, ast.Assign) and len(st.targets) == 1 and isinstance(st.targets[0], ast.Name) \
                 and isinstance(st.value, ast.Constant) and st.value.value == 0 and type(st.value.value) is int \
